@@ -76,30 +76,7 @@ def accepts (s : G.AssetState) (sn : G.Snapshot (G.AssetBalance K)) : Bool :=
   | none => true
   | some c => decide (c.time ≤ sn.f0.time_exchange)
 
-theorem snapshot_value (T : Type) [DecidableEq T] (s : G.Snapshot T) :
-    Generated.Machines.Snapshot.value s = s.f0 := rfl
-
-/-- **The balance register is `Stale.upd false`**, for every asset state and every snapshot. -/
-theorem balance_register_agrees (s : G.AssetState) (sn : G.Snapshot (G.AssetBalance K)) :
-    ofHeld (Generated.Machines.AssetState.update_from_balance s sn).balance
-      = upd false (ofHeld s.balance) (msgOf sn) := by
-  rcases s with ⟨a, st, _ | c⟩
-  · simp [Generated.Machines.AssetState.update_from_balance, ofHeld, upd, msgOf, Generated.Machines.Timed.new]
-  · by_cases h : c.time ≤ sn.f0.time_exchange <;>
-      simp [Generated.Machines.AssetState.update_from_balance, ofHeld, upd, msgOf, passes, snapshot_value, h]
-
-/-- `asset` is never touched; `statistics` is fed exactly the accepted snapshots. -/
-theorem balance_rest_agrees (s : G.AssetState) (sn : G.Snapshot (G.AssetBalance K)) :
-    (Generated.Machines.AssetState.update_from_balance s sn).asset = s.asset
-    ∧ (Generated.Machines.AssetState.update_from_balance s sn).statistics
-        = if accepts s sn then Generated.Machines.TearSheetAssetGenerator.update_from_balance s.statistics sn
-          else s.statistics := by
-  rcases s with ⟨a, st, _ | c⟩
-  · simp [Generated.Machines.AssetState.update_from_balance, accepts]
-  · by_cases h : c.time ≤ sn.f0.time_exchange <;>
-      simp [Generated.Machines.AssetState.update_from_balance, accepts, snapshot_value, h]
-
-/-! ### the asset statistics: C16's and C18's models -/
+/-! ### record maps for the asset statistics (C16's and C18's models) -/
 
 def ofBalTS (b : G.Balance) : TearSheet.Balance := ⟨b.total, b.free⟩
 def snapOf (sn : G.Snapshot (G.AssetBalance K)) : TearSheet.BalSnap := ⟨sn.f0.time_exchange, ofBalTS sn.f0.balance⟩
@@ -114,45 +91,7 @@ def ofSheet (g : G.Stats) : Drawdown.Sheet :=
   ⟨KernelsAgree.Drawdown.ofGen g.drawdown, KernelsAgree.Drawdown.ofMeanGen g.drawdown_mean,
     KernelsAgree.Drawdown.ofMaxGen g.drawdown_max⟩
 
-/-- `TearSheetAssetGenerator::update_from_balance`: `balance_now` as in C16's model, the three
-drawdown generators as C18's `Sheet.update` on the point `(time_exchange, balance.total)`. -/
-theorem stats_update_agrees (g : G.Stats) (sn : G.Snapshot (G.AssetBalance K)) :
-    ofStatsTS (Generated.Machines.TearSheetAssetGenerator.update_from_balance g sn)
-        = (ofStatsTS g).updateFromBalance (snapOf sn)
-    ∧ ofSheet (Generated.Machines.TearSheetAssetGenerator.update_from_balance g sn)
-        = ((ofSheet g).update ⟨sn.f0.time_exchange, sn.f0.balance.total⟩).1 := by
-  rcases g with ⟨bn, dg, dmean, dmax⟩
-  have hu := KernelsAgree.Drawdown.update_agrees (KernelsAgree.Drawdown.ofGen dg)
-    ⟨sn.f0.time_exchange, sn.f0.balance.total⟩
-  rw [KernelsAgree.Drawdown.toGen_ofGen] at hu
-  simp only [KernelsAgree.Drawdown.toTimed] at hu
-  have hm : ∀ d, (KernelsAgree.Drawdown.ofMeanGen dmean).update (KernelsAgree.Drawdown.ofDd d)
-      = KernelsAgree.Drawdown.ofMeanGen (dmean.update d) := fun d => by
-    rw [KernelsAgree.Drawdown.mean_update_agrees, KernelsAgree.Drawdown.toMeanGen_ofMeanGen,
-      KernelsAgree.Drawdown.toDd_ofDd]
-  have hx : ∀ d, (KernelsAgree.Drawdown.ofMaxGen dmax).update (KernelsAgree.Drawdown.ofDd d)
-      = KernelsAgree.Drawdown.ofMaxGen (dmax.update d) := fun d => by
-    rw [KernelsAgree.Drawdown.max_update_agrees, KernelsAgree.Drawdown.toMaxGen_ofMaxGen,
-      KernelsAgree.Drawdown.toDd_ofDd]
-  simp only [Generated.Machines.TearSheetAssetGenerator.update_from_balance, snapshot_value,
-    Generated.Machines.Timed.new, ofStatsTS, ofSheet, BarterModel.Drawdown.Sheet.update, hu,
-    TearSheet.TearSheetAssetGenerator.updateFromBalance, snapOf]
-  rcases hd : dg.update ⟨sn.f0.balance.total, sn.f0.time_exchange⟩ with ⟨g', _ | d⟩ <;> simp [hm, hx]
-
-/-- `AssetState::update_from_balance` commutes with C16's `AssetState.updateFromBalance`. -/
-theorem asset_state_agrees_tearsheet (s : G.AssetState) (sn : G.Snapshot (G.AssetBalance K)) :
-    ofAssetTS (Generated.Machines.AssetState.update_from_balance s sn)
-      = (ofAssetTS s).updateFromBalance (snapOf sn) := by
-  have h1 := (stats_update_agrees s.statistics sn).1
-  rcases s with ⟨a, st, _ | c⟩
-  · simp only [Generated.Machines.AssetState.update_from_balance, ofAssetTS,
-      TearSheet.AssetState.updateFromBalance, Generated.Machines.Timed.new, Option.map] at h1 ⊢
-    simp [h1, snapOf]
-  · by_cases h : c.time ≤ sn.f0.time_exchange <;>
-      simp [Generated.Machines.AssetState.update_from_balance, ofAssetTS,
-        TearSheet.AssetState.updateFromBalance, snapshot_value, h, h1, snapOf]
-
-/-! ## Market data: last trade and top of book -/
+/-! ### record maps for the market data -/
 
 def toLevelBid (l : L1) : G.Level := ⟨l.bidP, l.bidA⟩
 def toLevelAsk (l : L1) : G.Level := ⟨l.askP, l.askA⟩
@@ -165,24 +104,92 @@ def toL1o : Option L1 → G.OrderBookL1
 def toTrade (m : Option (Msg Rat)) : Option (G.Timed Rat) := m.map fun m => ⟨m.2, m.1⟩
 def toMD (d : MarketData) : G.MarketData := ⟨toL1o d.l1, toTrade d.lastTrade⟩
 
+/-! ### Shape-independent proofs
+
+Every proof of this file takes the records apart (`rcases`: case analysis on the DATA — is a value held, which kind of
+event), unfolds *everything generated for the group* (`gen_registers`: the listed functions, the derived `Default`s and
+whatever auxiliary functions the translator found by lookup, under whatever names; plus the derived constructor
+`Timed::new` of group `pnl_returns`) together with the model's definitions and the record maps, and lets `grind`
+decide what is left (the comparison of the two timestamps, constructors). The drawdown generators of the asset
+statistics are NOT unfolded: the model's side is rewritten with the agreement theorems of `KernelsAgree/Drawdown.lean`
+into the same generated functions, whose result is then generalised. Nothing depends on the names of helper functions
+or on how the source spells a decision (`let .. else` + `if`, one `match` with a guard, `is_none_or` with a closure or
+an extracted predicate, nested `if` or early `return`, `.replace(x)` or `= Some(x)`, flipped comparisons, reordered
+disjoint arms / independent assignments, hoisted locals). -/
+
+open Lean.Parser.Tactic in
+/-- everything generated for the group, the model's definitions and the record maps -/
+local macro "unfold_reg" loc:(location)? : tactic => `(tactic|
+  simp only [gen_registers, Generated.Machines.Timed.new, upd, passes, MarketData.trade, MarketData.bookL1,
+    MarketData.init, Unrealised.price, Unrealised.volumeWeightedMidPrice, TearSheet.TearSheetAssetGenerator.updateFromBalance,
+    TearSheet.AssetState.updateFromBalance, BarterModel.Drawdown.Sheet.update, ofBal, toBal, ofHeld, toHeld, msgOf, accepts,
+    ofBalTS, snapOf, ofStatsTS, ofAssetTS, ofSheet, toLevelBid, toLevelAsk, toL1, toL1o, toTrade, toMD,
+    KernelsAgree.Drawdown.update_agrees, KernelsAgree.Drawdown.mean_update_agrees, KernelsAgree.Drawdown.max_update_agrees,
+    KernelsAgree.Drawdown.toGen_ofGen, KernelsAgree.Drawdown.toMeanGen_ofMeanGen, KernelsAgree.Drawdown.toMaxGen_ofMaxGen,
+    KernelsAgree.Drawdown.toDd_ofDd, KernelsAgree.Drawdown.toTimed, Option.map, Option.or] $[$loc]?)
+
+/-- unfold both sides, then case analysis on the data -/
+local macro "reg_agree" : tactic => `(tactic| first | rfl | (unfold_reg; done) | (unfold_reg; grind))
+
+theorem snapshot_value (T : Type) [DecidableEq T] (s : G.Snapshot T) :
+    Generated.Machines.Snapshot.value s = s.f0 := by reg_agree
+
+/-- **The balance register is `Stale.upd false`**, for every asset state and every snapshot. -/
+theorem balance_register_agrees (s : G.AssetState) (sn : G.Snapshot (G.AssetBalance K)) :
+    ofHeld (Generated.Machines.AssetState.update_from_balance s sn).balance
+      = upd false (ofHeld s.balance) (msgOf sn) := by
+  rcases sn with ⟨⟨k, ⟨tot, fr⟩, te⟩⟩
+  rcases s with ⟨a, st, _ | ⟨⟨ctot, cfr⟩, ct⟩⟩ <;> reg_agree
+
+/-- `asset` is never touched; `statistics` is fed exactly the accepted snapshots. -/
+theorem balance_rest_agrees (s : G.AssetState) (sn : G.Snapshot (G.AssetBalance K)) :
+    (Generated.Machines.AssetState.update_from_balance s sn).asset = s.asset
+    ∧ (Generated.Machines.AssetState.update_from_balance s sn).statistics
+        = if accepts s sn then Generated.Machines.TearSheetAssetGenerator.update_from_balance s.statistics sn
+          else s.statistics := by
+  rcases sn with ⟨⟨k, ⟨tot, fr⟩, te⟩⟩
+  rcases s with ⟨a, st, _ | ⟨⟨ctot, cfr⟩, ct⟩⟩ <;> reg_agree
+
+/-! ### the asset statistics: C16's and C18's models -/
+
+/-- `TearSheetAssetGenerator::update_from_balance`: `balance_now` as in C16's model, the three
+drawdown generators as C18's `Sheet.update` on the point `(time_exchange, balance.total)`. -/
+theorem stats_update_agrees (g : G.Stats) (sn : G.Snapshot (G.AssetBalance K)) :
+    ofStatsTS (Generated.Machines.TearSheetAssetGenerator.update_from_balance g sn)
+        = (ofStatsTS g).updateFromBalance (snapOf sn)
+    ∧ ofSheet (Generated.Machines.TearSheetAssetGenerator.update_from_balance g sn)
+        = ((ofSheet g).update ⟨sn.f0.time_exchange, sn.f0.balance.total⟩).1 := by
+  rcases sn with ⟨⟨k, ⟨tot, fr⟩, te⟩⟩
+  rcases g with ⟨bn, dg, dmean, dmax⟩
+  unfold_reg
+  -- both sides now speak about the same call of the generated `DrawdownGenerator::update` (group `drawdown`, not unfolded)
+  generalize Generated.Machines.DrawdownGenerator.update _ _ = r
+  rcases r with ⟨g', _ | d⟩ <;> grind [KernelsAgree.Drawdown.toDd_ofDd]
+
+/-- `AssetState::update_from_balance` commutes with C16's `AssetState.updateFromBalance`. -/
+theorem asset_state_agrees_tearsheet (s : G.AssetState) (sn : G.Snapshot (G.AssetBalance K)) :
+    ofAssetTS (Generated.Machines.AssetState.update_from_balance s sn)
+      = (ofAssetTS s).updateFromBalance (snapOf sn) := by
+  rcases sn with ⟨⟨k, ⟨tot, fr⟩, te⟩⟩
+  rcases s with ⟨a, ⟨bn, dg, dmean, dmax⟩, _ | ⟨⟨ctot, cfr⟩, ct⟩⟩ <;> unfold_reg <;>
+    generalize Generated.Machines.DrawdownGenerator.update _ _ = r <;>
+    rcases r with ⟨g', _ | d⟩ <;> grind [KernelsAgree.Drawdown.toDd_ofDd]
+
+/-! ## Market data: last trade and top of book -/
+
 theorem toL1_injective (a b : L1) (h : toL1 a = toL1 b) : a = b := by
   cases a; cases b; simp_all [toL1, toLevelBid, toLevelAsk]
-theorem toMD_init : toMD MarketData.init = Generated.Machines.DefaultInstrumentMarketData.default := rfl
+theorem toMD_init : toMD MarketData.init = Generated.Machines.DefaultInstrumentMarketData.default := by reg_agree
 
 theorem volume_weighted_mid_price_agrees (l : L1) :
     Generated.Machines.volume_weighted_mid_price (toLevelBid l) (toLevelAsk l)
-      = Unrealised.volumeWeightedMidPrice l := by
-  simp only [Generated.Machines.volume_weighted_mid_price, Unrealised.volumeWeightedMidPrice,
-    toLevelBid, toLevelAsk]
+      = Unrealised.volumeWeightedMidPrice l := by reg_agree
 
 /-- `DefaultInstrumentMarketData::price` is C15's `Unrealised.price` (volume-weighted mid price of the
 held book if it has both levels, else the last traded price). -/
 theorem price_agrees (d : MarketData) :
     Generated.Machines.DefaultInstrumentMarketData.price (toMD d) = Unrealised.price d := by
-  rcases d with ⟨_ | l, _ | t⟩ <;>
-    simp [Generated.Machines.DefaultInstrumentMarketData.price,
-      Generated.Machines.OrderBookL1.volume_weighed_mid_price, Unrealised.price, toMD, toL1o, toL1,
-      toTrade, Generated.Machines.OrderBookL1.default, volume_weighted_mid_price_agrees]
+  rcases d with ⟨_ | l, _ | t⟩ <;> reg_agree
 
 /-- **Trade arm** = `MarketData.trade` (register `upd true`) on the converted price; a price
 `Decimal::from_f64` rejects changes nothing. For every `from_f64`, event envelope and key type. -/
@@ -192,10 +199,7 @@ theorem process_trade_agrees (from_f64 : Generated.Machines.F64 → Option Rat) 
       = match from_f64 t.price with
         | some p => toMD (d.trade te p)
         | none => toMD d := by
-  rcases d with ⟨l, _ | c⟩ <;>
-    simp only [Generated.Machines.DefaultInstrumentMarketData.process, MarketData.trade, upd, passes, toMD,
-      toTrade, Option.map, Generated.Machines.Timed.new] <;>
-    cases from_f64 t.price <;> simp <;> split <;> simp_all
+  rcases d with ⟨l, _ | ⟨ct, cp⟩⟩ <;> cases h : from_f64 t.price <;> unfold_reg <;> simp only [h] <;> grind
 
 /-- **L1 arm** = `MarketData.bookL1`, under the model's documented precondition that a fresh
 instrument only sees event times after the Unix epoch. -/
@@ -205,10 +209,8 @@ theorem process_l1_agrees (from_f64 : Generated.Machines.F64 → Option Rat) (d 
       = toMD (d.bookL1 te l) := by
   rcases d with ⟨_ | c, lt⟩
   · have := hepoch rfl
-    simp [Generated.Machines.DefaultInstrumentMarketData.process, MarketData.bookL1, toMD, toL1o,
-      Generated.Machines.OrderBookL1.default, this]
-  · by_cases h : c.tl < te <;>
-      simp [Generated.Machines.DefaultInstrumentMarketData.process, MarketData.bookL1, toMD, toL1o, toL1, h]
+    reg_agree
+  · reg_agree
 
 /-- The boundary of that precondition: at or before the epoch the code keeps the default book where
 the model stores the payload. -/
@@ -218,15 +220,13 @@ theorem process_l1_at_or_before_epoch (from_f64 : Generated.Machines.F64 → Opt
         = toMD ⟨none, lt⟩
     ∧ (MarketData.bookL1 ⟨none, lt⟩ te l) = ⟨some l, lt⟩ := by
   constructor
-  · have hn : ¬ (0 : Int) < te := by omega
-    simp [Generated.Machines.DefaultInstrumentMarketData.process, toMD, toL1o,
-      Generated.Machines.OrderBookL1.default, hn]
+  · reg_agree
   · rfl
 
 /-- **Every other kind** (`OrderBook`, `Candle`, `Liquidation`: the `_ => {}` arm) changes nothing. -/
 theorem process_other_agrees (from_f64 : Generated.Machines.F64 → Option Rat) (g : G.MarketData)
     (te tr : Int) (ex : Nat) (i : K) :
-    Generated.Machines.DefaultInstrumentMarketData.process from_f64 g ⟨te, tr, ex, i, .Other_⟩ = g := rfl
+    Generated.Machines.DefaultInstrumentMarketData.process from_f64 g ⟨te, tr, ex, i, .Other_⟩ = g := by reg_agree
 
 /-- Everything `./check C09` re-proves against the current source, at once. -/
 theorem registers_sm_agree :
